@@ -270,7 +270,8 @@ fn p18c_after_stop() {
         }
     }
     assert!(c.step_result().is_stop());
-    assert!(c.parser.n_consumed == 0 && c.parser.n_mask == n_mask && c.parser.n_check_stop == n_cs);
+    let vc_6 = c.parser.n_consumed == 0 && c.parser.n_mask == n_mask && c.parser.n_check_stop == n_cs;
+    assert!(vc_6);
     kani::cover!(which);
     kani::cover!(!which);
     std::mem::forget(c);
